@@ -1406,8 +1406,7 @@ Qed.
    (F3) a store_metadata that raises leaves the document as it was;
    (F2) the call returns and no lock is left, for every fault plan that never fails the flock.
    "Success => the permanent files are those of the fault-free run" is proved in FaultSuccess.v
-   (one-off faults: every call; persistent faults: every call but delete_object /
-   delete_metadata(pid, None)).
+   (one-off faults: every call) and FaultPersist.v (persistent faults: every call).
    MISSING: (F2) when the flock itself fails; (F4) after a failed store_object / tag_object under a ONE-OFF fault the pid is
    unbound and can be stored again, or its earlier binding is intact (proved for the menu only;
    FALSE for persistent faults, witness above); the follow-up clauses of [fault_outcome_ok]. *)
